@@ -1050,7 +1050,11 @@ impl CompositionGraph {
             })
             .collect::<Vec<_>>()
         {
-            self.remove_node(node);
+            // A dependent may already have been removed as the dependent of
+            // another dependent
+            if self.graph.contains_node(node.0) {
+                self.remove_node(node);
+            }
         }
 
         // Any argument satisfied by this node becomes unsatisfied again
